@@ -92,7 +92,7 @@ def tlc(spec, cfg, cwd, workers=1, extra=(), timeout=1800, heap=None, deque=Fals
     if deque:
         cmd.append("-Dtlc2.tool.queue.IStateQueue=StateDeque")
     cmd += ["-cp", "/opt/veriftools/tla/tla2tools.jar:/opt/veriftools/tla/CommunityModules-deps.jar", "tlc2.TLC",
-            os.path.join(SPEC, spec), "-config", os.path.join(SPEC, cfg), "-workers", str(workers), "-metadir", md]
+            os.path.join(SPEC, spec), "-config", os.path.join(SPEC, cfg), "-workers", str(workers), "-metadir", md, "-noGenerateSpecTE"]
     cmd += list(extra)
     try:
         p = subprocess.run(cmd, cwd=cwd, capture_output=True, text=True, timeout=timeout)
